@@ -52,6 +52,7 @@ Definition classification : list (string * string * sclass) := [
   ("lou_backTranslateString.c", "notFound", ResetBeforeUse);
   ("lou_backTranslateString.c", "stringBuffers", ResetBeforeUse);
   ("lou_backTranslateString.c", "stringBuffersInUse", ResetBeforeUse);
+  ("pattern.c", "translation_direction", ResetBeforeUse);            (* set by both main-pass functions before their first loop: Properties/C08 direction_is_set_by_every_main_pass *)
   ("lou_translateString.c", "appliedRules", ResetBeforeUse);
   ("lou_translateString.c", "appliedRulesCount", ResetBeforeUse);
   ("lou_translateString.c", "maxAppliedRules", ResetBeforeUse);
@@ -61,7 +62,6 @@ Definition classification : list (string * string * sclass) := [
   ("lou_translateString.c", "stringBuffers", ResetBeforeUse);
   ("lou_translateString.c", "stringBuffersInUse", ResetBeforeUse);
   ("lou_translateString.c", "stringStore", ResetBeforeUse);
-  ("lou_translateString.c", "translation_direction", ResetBeforeUse);
   ("metadata.c", "fileName", ResetBeforeUse);
   ("metadata.c", "tableIndex", Configuration);
   ("metadata.c", "subtag", ResetBeforeUse);
